@@ -167,6 +167,11 @@ func (r *DeviceLocal) RemoveRemoteDevice(ski string) {
 	bindingMgr := r.BindingManager()
 	bindingMgr.RemoveBindingsForDevice(remoteDevice)
 
+	// messages of this connection are not served anymore from now on
+	if device, ok := remoteDevice.(*DeviceRemote); ok {
+		device.removed.Store(true)
+	}
+
 	r.mux.Lock()
 	delete(r.remoteDevices, ski)
 	remainingDevices := len(r.remoteDevices)
